@@ -24,6 +24,7 @@ import (
 	"net/http"
 	"net/http/httptest"
 	"net/url"
+	"regexp"
 	"runtime"
 	"sort"
 	"strconv"
@@ -176,7 +177,7 @@ var gateOf = map[string]string{
 	"RbLock": "lock.SetNX", "RbGet": "rec.Get", "RbIdxGet": "idx.Get", "RbList": "cl.RemoveFromList", "RbUnlock": "lock.Delete",
 	"L_idx": "idx.Get", "L_rec": "rec.Get",
 	"ListGet": "cl.GetList", "ListRec": "rec.Get", "ListPrune": "cl.RemoveFromList",
-	"DelCUnlock": "lock.Delete", "L_clean": "idx.Delete", "ListHeal": "idx.SetNX", // deviation models only
+	"DelCUnlock": "lock.Delete", "L_clean": "idx.Delete", "ListHeal": "idx.SetNX", "UpdHeal": "idx.SetNX", // deviation models only
 }
 
 // ---- environment doubles of the proxy ----------------------------------------------------------
@@ -344,6 +345,7 @@ type res struct {
 	c      int64
 	tp     int
 	code   int
+	exp    int64 // expiry time (unix seconds) the create response acknowledged; 0 = none
 }
 
 func errStr(err error) string {
@@ -354,8 +356,16 @@ func errStr(err error) string {
 }
 
 func (r *rig) doCreate(n *node, api string, c int64, sub string, tp int) res {
+	return r.doCreateTTL(n, api, c, sub, tp, 0)
+}
+
+func (r *rig) doCreateTTL(n *node, api string, c int64, sub string, tp int, ttl int) res {
 	if api == "cmd" {
-		body, _ := json.Marshal(map[string]any{"target_url": fmt.Sprintf("http://127.0.0.1:%d", tp), "subdomain": sub, "base_domain": baseDomain})
+		req := map[string]any{"target_url": fmt.Sprintf("http://127.0.0.1:%d", tp), "subdomain": sub, "base_domain": baseDomain}
+		if ttl > 0 {
+			req["mapping_ttl"] = ttl
+		}
+		body, _ := json.Marshal(req)
 		resp, err := n.ch.Handle(&command.CommandContext{ConnectionID: "conn", RequestID: "rq", CommandId: "cmd", ClientID: c, IsAuthenticated: true, RequestBody: string(body), Context: context.Background()})
 		if err != nil || resp == nil {
 			return res{err: "handler: " + errStr(err)}
@@ -363,12 +373,17 @@ func (r *rig) doCreate(n *node, api string, c int64, sub string, tp int) res {
 		var out struct {
 			Success   bool   `json:"success"`
 			MappingID string `json:"mapping_id"`
+			ExpiresAt string `json:"expires_at"`
 			Error     string `json:"error"`
 		}
 		if json.Unmarshal([]byte(resp.Data), &out) != nil {
 			return res{err: "unparsable response " + resp.Data}
 		}
-		return res{ok: out.Success && resp.Success, id: out.MappingID, err: out.Error}
+		var exp int64
+		if t, err := time.Parse(time.RFC3339, out.ExpiresAt); err == nil {
+			exp = t.Unix()
+		}
+		return res{ok: out.Success && resp.Success, id: out.MappingID, err: out.Error, exp: exp}
 	}
 	m, err := n.repo.CreateMapping(context.Background(), c, sub, baseDomain, "127.0.0.1", tp)
 	if err != nil {
@@ -472,7 +487,7 @@ func (r *rig) lookupEvent(p string, s spelling) res {
 	r.emu.Lock()
 	r.lkSeq++
 	call := fmt.Sprintf("%s-%d", p, r.lkSeq)
-	r.events = append(r.events, fw.Event{"ev": "Call", "p": call, "op": "Lookup", "host": s.host, "name": s.name, "sp": s.sp})
+	r.events = append(r.events, fw.Event{"ev": "Call", "p": call, "op": "Lookup", "host": s.host, "name": s.name, "sp": s.sp, "now": time.Now().Unix()})
 	r.emu.Unlock()
 	out := r.doLookup(call, s.host)
 	r.log(fw.Event{"ev": "Ret", "p": call, "op": "Lookup", "routed": out.routed, "c": out.c, "tp": out.tp, "code": out.code})
@@ -598,7 +613,7 @@ func (r *rig) createPre() error {
 	tp := 8000 + r.tpSeq
 	r.log(fw.Event{"ev": "Call", "p": "setup", "op": "Create", "c": cidOf["c1"], "name": fullOf("n1"), "raw": fullOf("n1"), "tp": tp})
 	out := r.doCreate(r.nodes[0], "repo", cidOf["c1"], subOf["n1"], tp)
-	r.log(fw.Event{"ev": "Ret", "p": "setup", "op": "Create", "ok": out.ok, "id": out.id, "err": out.err, "faulted": false})
+	r.log(fw.Event{"ev": "Ret", "p": "setup", "op": "Create", "ok": out.ok, "id": out.id, "err": out.err, "faulted": false, "exp": out.exp})
 	if !out.ok || out.id != "hdm_1" {
 		return fmt.Errorf("setup create: ok=%v id=%q err=%s", out.ok, out.id, out.err)
 	}
@@ -613,7 +628,7 @@ func (r *rig) logRet(a *active) {
 	out, _ := r.s.Result(a.name).(res)
 	switch a.op {
 	case "Create":
-		r.log(fw.Event{"ev": "Ret", "p": a.name, "op": "Create", "ok": out.ok, "id": out.id, "err": out.err, "faulted": a.faulted})
+		r.log(fw.Event{"ev": "Ret", "p": a.name, "op": "Create", "ok": out.ok, "id": out.id, "err": out.err, "faulted": a.faulted, "exp": out.exp})
 	case "Lookup":
 		r.log(fw.Event{"ev": "Ret", "p": a.name, "op": "Lookup", "routed": out.routed, "c": out.c, "tp": out.tp, "code": out.code})
 	default:
@@ -649,6 +664,8 @@ func drive(env *fw.Env, b fw.Behaviour) *fw.Trace {
 		return driveSpell(beh)
 	case "regrace":
 		return driveRegRace(beh)
+	case "ttl":
+		return driveTTL(beh)
 	}
 	r := newRig(beh.Tier, false)
 	defer r.close()
@@ -708,6 +725,18 @@ func drive(env *fw.Env, b fw.Behaviour) *fw.Trace {
 			if st.A == "LegCreate" {
 				pm := &models.PortMapping{ID: fmt.Sprintf("pm_%d", st.ID), TargetClientID: cidOf[st.C], TargetHost: "127.0.0.1", TargetPort: 9000 + st.ID,
 					Protocol: models.ProtocolHTTP, HTTPSubdomain: subOf[st.N], HTTPBaseDomain: baseDomain, Status: models.MappingStatusActive}
+				legSt := st.Sp
+				switch legSt { // the three ways a legacy mapping is not to be served
+				case "inactive":
+					pm.Status = models.MappingStatusInactive
+				case "revoked":
+					pm.IsRevoked = true
+				case "expired":
+					past := time.Now().Add(-time.Hour)
+					pm.ExpiresAt = &past
+				default:
+					legSt = "active"
+				}
 				if st.St == "here" {
 					// management API on the proxy node: availability check + registration in its registry
 					if !r.reg.IsSubdomainAvailable(subOf[st.N], baseDomain) {
@@ -723,7 +752,7 @@ func drive(env *fw.Env, b fw.Behaviour) *fw.Trace {
 				r.cc.m[full] = pm
 				r.cc.mu.Unlock()
 				r.legTP[st.ID] = full
-				r.log(fw.Event{"ev": "LegCreate", "lid": st.ID, "c": cidOf[st.C], "name": full, "tp": 9000 + st.ID, "here": st.St == "here"})
+				r.log(fw.Event{"ev": "LegCreate", "lid": st.ID, "c": cidOf[st.C], "name": full, "tp": 9000 + st.ID, "here": st.St == "here", "st": legSt})
 			} else {
 				r.cc.mu.Lock()
 				delete(r.cc.m, full)
@@ -778,7 +807,7 @@ func drive(env *fw.Env, b fw.Behaviour) *fw.Trace {
 				if st.Sp == "plain" && i%2 == 1 {
 					sp = spellingFor("port", fullOf(st.N)) // same index key in the model's table; vary the concrete spelling
 				}
-				r.log(fw.Event{"ev": "Call", "p": a.name, "op": "Lookup", "host": sp.host, "name": sp.name, "sp": sp.sp})
+				r.log(fw.Event{"ev": "Call", "p": a.name, "op": "Lookup", "host": sp.host, "name": sp.name, "sp": sp.sp, "now": time.Now().Unix()})
 				fn = func() any { return r.doLookup(a.name, sp.host) }
 			default:
 				return &fw.Trace{Status: fw.DriverError, Note: "unknown op " + st.Op}
@@ -898,7 +927,7 @@ func (r *rig) claimProbe(n string) {
 	p := "claim-" + n
 	r.log(fw.Event{"ev": "Call", "p": p, "op": "Create", "c": int64(109), "name": fullOf(n), "raw": fullOf(n), "tp": tp})
 	out := r.doCreate(r.nodes[0], "repo", 109, subOf[n], tp)
-	r.log(fw.Event{"ev": "Ret", "p": p, "op": "Create", "ok": out.ok, "id": out.id, "err": out.err, "faulted": false})
+	r.log(fw.Event{"ev": "Ret", "p": p, "op": "Create", "ok": out.ok, "id": out.id, "err": out.err, "faulted": false, "exp": out.exp})
 	if out.ok {
 		r.log(fw.Event{"ev": "Call", "p": p + "-undo", "op": "Delete", "c": int64(109), "id": out.id})
 		d := r.doDelete(r.nodes[0], "repo", 109, out.id)
@@ -952,7 +981,7 @@ func driveSpell(beh behaviour) *fw.Trace {
 		full := sub + "." + baseDomain
 		r.log(fw.Event{"ev": "Call", "p": p, "op": "Create", "c": c, "name": strings.ToLower(full), "raw": full, "tp": tp})
 		out := r.doCreate(n, beh.API, c, sub, tp)
-		r.log(fw.Event{"ev": "Ret", "p": p, "op": "Create", "ok": out.ok, "id": out.id, "err": out.err, "faulted": false})
+		r.log(fw.Event{"ev": "Ret", "p": p, "op": "Create", "ok": out.ok, "id": out.id, "err": out.err, "faulted": false, "exp": out.exp})
 		return out
 	}
 	del := func(n *node, c int64, id string) res {
@@ -1006,6 +1035,79 @@ func driveSpell(beh behaviour) *fw.Trace {
 	return &fw.Trace{Status: fw.Realised, Events: r.events}
 }
 
+// ---- expiry by the clock ----------------------------------------------------------------------------
+
+// driveTTL: a mapping created through the command handler with a TTL of one second (the response acknowledges
+// expires_at) is requested before and after that instant in every Host spelling; then the name - still owned, not
+// routed - is refused to another client, given back by its owner and claimed by the other client. The judge compares
+// the acknowledged expiry with the driver's clock at each lookup call (same clock as the code's time.Now()).
+func driveTTL(beh behaviour) *fw.Trace {
+	r := newRig(beh.Tier, true)
+	defer r.close()
+	n0, n1 := r.nodes[0], r.nodes[1]
+	seq := 0
+	create := func(n *node, c int64, sub string, ttl int) res {
+		seq++
+		r.tpSeq++
+		tp := 8000 + r.tpSeq
+		p := fmt.Sprintf("t.%d", seq)
+		full := sub + "." + baseDomain
+		r.log(fw.Event{"ev": "Call", "p": p, "op": "Create", "c": c, "name": strings.ToLower(full), "raw": full, "tp": tp})
+		out := r.doCreateTTL(n, "cmd", c, sub, tp, ttl)
+		r.log(fw.Event{"ev": "Ret", "p": p, "op": "Create", "ok": out.ok, "id": out.id, "err": out.err, "faulted": false, "exp": out.exp})
+		return out
+	}
+	del := func(n *node, c int64, id string) res {
+		seq++
+		p := fmt.Sprintf("t.%d", seq)
+		r.log(fw.Event{"ev": "Call", "p": p, "op": "Delete", "c": c, "id": id})
+		out := r.doDelete(n, "cmd", c, id)
+		r.log(fw.Event{"ev": "Ret", "p": p, "op": "Delete", "ok": out.ok, "err": out.err})
+		return out
+	}
+	sweep := func(full string) {
+		for _, s := range spellingsOf(full) {
+			r.lookupEvent("sw", s)
+		}
+	}
+	faulted := false
+	if beh.Seed == 1 {
+		r.arm("rec.Get") // the expiry update of the create fails (its GetMapping): the first record read of the call
+	}
+	a := create(n0, 101, "app1", 1)
+	if beh.Seed == 1 {
+		faulted = r.armedNow() == ""
+		r.arm("")
+		if !faulted {
+			return &fw.Trace{Status: fw.DriverError, Note: "ttl: the create read no record (fault not consumed)"}
+		}
+		// the Ret line above said faulted = false: correct it (the judge excuses a refusal of a faulted create only)
+		r.events[len(r.events)-1]["faulted"] = true
+	}
+	if !a.ok && !faulted {
+		return &fw.Trace{Status: fw.DriverError, Note: "ttl setup: create failed: " + a.err}
+	}
+	sweep("app1.tunnox.net")
+	if a.ok && a.exp != 0 {
+		deadline := time.Now().Add(4 * time.Second)
+		for time.Now().Unix() <= a.exp && time.Now().Before(deadline) {
+			time.Sleep(40 * time.Millisecond)
+		}
+	}
+	sweep("app1.tunnox.net")
+	if a.ok {
+		create(n1, 102, "app1", 3600) // the expired mapping still owns the name
+		del(n0, 101, a.id)
+	}
+	c := create(n1, 102, "app1", 3600) // claimable again (after the owner's delete, or after the rolled-back create)
+	sweep("app1.tunnox.net")
+	if c.ok {
+		del(n1, 102, c.id)
+	}
+	r.log(r.finalEvent())
+	return &fw.Trace{Status: fw.Realised, Events: r.events}
+}
+
 // ---- free-running stress ----------------------------------------------------------------------------
 
 // driveFree: Procs goroutines (two per client, spread over the two nodes) issue Ops random calls each
@@ -1034,7 +1136,7 @@ func driveFree(env *fw.Env, beh behaviour) *fw.Trace {
 		sp   int
 	}
 	scripts := make([][]opn, beh.Procs)
-	kinds := []string{"Create", "Create", "Create", "Delete", "Delete", "DeleteAny", "Lookup", "Lookup"}
+	kinds := []string{"Create", "Create", "Create", "Delete", "Delete", "DeleteAny", "Lookup", "Lookup", "List", "Expire"}
 	for p := range scripts {
 		for o := 0; o < beh.Ops; o++ {
 			scripts[p] = append(scripts[p], opn{kind: kinds[rnd.Intn(len(kinds))], n: []string{"n1", "n1", "n2"}[rnd.Intn(3)], pick: rnd.Intn(1000), sp: rnd.Intn(8)})
@@ -1065,7 +1167,7 @@ func driveFree(env *fw.Env, beh behaviour) *fw.Trace {
 					r.events = append(r.events, fw.Event{"ev": "Call", "p": call, "op": "Create", "c": c, "name": fullOf(o.n), "raw": fullOf(o.n), "tp": tp})
 					r.emu.Unlock()
 					out := r.doCreate(n, beh.API, c, subOf[o.n], tp)
-					r.log(fw.Event{"ev": "Ret", "p": call, "op": "Create", "ok": out.ok, "id": out.id, "err": out.err, "faulted": false})
+					r.log(fw.Event{"ev": "Ret", "p": call, "op": "Create", "ok": out.ok, "id": out.id, "err": out.err, "faulted": false, "exp": out.exp})
 					if out.ok {
 						kmu.Lock()
 						ids = append(ids, known{out.id, c})
@@ -1089,6 +1191,28 @@ func driveFree(env *fw.Env, beh behaviour) *fw.Trace {
 					r.log(fw.Event{"ev": "Ret", "p": call, "op": "Delete", "ok": out.ok, "err": out.err})
 				case "Lookup":
 					r.lookupEvent(call, spellingsOf(fullOf(o.n))[o.sp])
+				case "List": // the client lists its own mappings while its other goroutine creates / deletes
+					r.log(fw.Event{"ev": "Call", "p": call, "op": "List", "c": c})
+					out := r.doList(n, beh.API, c)
+					r.log(fw.Event{"ev": "Ret", "p": call, "op": "List", "ok": out.ok, "err": out.err})
+				case "Expire": // the owner's side makes its newest mapping inactive / expired
+					kmu.Lock()
+					var mine []known
+					for _, x := range ids {
+						if x.c == c {
+							mine = append(mine, x)
+						}
+					}
+					kmu.Unlock()
+					if len(mine) == 0 {
+						continue
+					}
+					x := mine[len(mine)-1]
+					st := []string{"inactive", "expired"}[o.pick%2]
+					m := r.peek(n, x.id)
+					r.log(fw.Event{"ev": "Call", "p": call, "op": "Update", "id": x.id, "st": st})
+					out := r.doUpdate(n, m, st)
+					r.log(fw.Event{"ev": "Ret", "p": call, "op": "Update", "ok": out.ok, "err": out.err})
 				}
 			}
 		}(p)
@@ -1160,7 +1284,7 @@ func driveRegRace(beh behaviour) *fw.Trace {
 		full := fmt.Sprintf("r%d.%s", rd, baseDomain)
 		for i, ok := range acks {
 			if ok {
-				r.log(fw.Event{"ev": "LegCreate", "lid": rd*k + i + 1, "c": int64(201 + i), "name": full, "tp": 9000 + rd*k + i, "here": true})
+				r.log(fw.Event{"ev": "LegCreate", "lid": rd*k + i + 1, "c": int64(201 + i), "name": full, "tp": 9000 + rd*k + i, "here": true, "st": "active"})
 			}
 		}
 		r.lookupEvent("rr", spelling{"plain", full, full})
@@ -1182,6 +1306,8 @@ type mcfg struct {
 	onlyDel, onlyCre, deviate       string // "" = {}
 	delFaults                       bool
 	creFaults                       bool
+	readFaults                      bool
+	legStatus                       string // "" = {"active"}
 	onlyList, handler               string // handler: "" = {"p2"}
 	lp                              string // lookup processes ("" = one)
 	emit                            bool
@@ -1211,6 +1337,13 @@ func setOf(s string) string {
 	return s
 }
 
+func legStatusOf(c mcfg) string {
+	if c.legStatus == "" {
+		return `{"active"}`
+	}
+	return c.legStatus
+}
+
 func lpOf(c mcfg) string {
 	if c.maxLook == 0 {
 		return "{}"
@@ -1225,14 +1358,41 @@ func tf(b bool) string {
 	return "FALSE"
 }
 
-const allInvs = "OneOwner RouteOK OwnerOnly LockHeld OnlyHolderUnlocks LookupPure ListPure RegisterAtomic Consistent Claimable NoIndexTheft"
-const excusedInvs = "OneOwnerX RouteOKX OwnerOnly LockHeld OnlyHolderUnlocks LookupPure ListPure RegisterAtomic Consistent Claimable NoIndexTheft"
+const commonInvs = "OwnerOnly LockHeld OnlyHolderUnlocks LookupPure ListPure UpdateClaimsNothing RegisterAtomic Consistent Claimable NoIndexTheft NoShadow LegacyInactiveRejects"
+const allInvs = "OneOwner RouteOK " + commonInvs
+const excusedInvs = "OneOwnerX RouteOKX " + commonInvs
+
+// ttlRollback probes the code under test once: does a create through the command handler whose expiry update
+// (UpdateMapping) fails get rolled back and refused (the C19-3 repair of adapter.CreateHTTPDomainMapping, model
+// constant TTLRollback = TRUE), or is it acknowledged with an expires_at that was never stored (the code as found)?
+// The probe only selects the model variant the schedules are generated from; what either code does is judged on
+// the traces (driveTTL with Seed = 1, and every gen:opf behaviour whose fault hits the expiry update).
+var ttlProbe struct {
+	once  sync.Once
+	fixed bool
+}
+
+func ttlRollback() bool {
+	ttlProbe.once.Do(func() {
+		r := newRig("store", true)
+		defer r.close()
+		r.arm("rec.Get") // the first record read of a create is UpdateMapping's
+		out := r.doCreateTTL(r.nodes[0], "cmd", 101, "probe", 8999, 60)
+		consumed := r.armedNow() == ""
+		r.arm("")
+		ttlProbe.fixed = consumed && !out.ok
+	})
+	return ttlProbe.fixed
+}
 
 func job(name string, c mcfg) fw.TLCJob {
+	if ttlRollback() && c.invs != "" {
+		c.invs += " ExpiryStored"
+	}
 	return fw.TLCJob{Name: name, Module: "Domain", Cfg: "Domain.cfg", Workers: 8, Timeout: 14 * time.Minute,
 		Consts: map[string]string{"P1": c.p1, "P2": c.p2, "LP": lpOf(c), "NAMES": c.names, "MAXOPS": strconv.Itoa(c.maxOps),
 			"MAXLOOK": strconv.Itoa(c.maxLook), "KINDS": c.kinds, "PRE": tf(c.pre), "FAULTS": strconv.Itoa(c.faults), "GUESS": tf(c.guess),
-			"HANDLER": handlerOf(c), "ONLYLIST": setOf(c.onlyList), "CREFAULTS": tf(c.creFaults), "SEQ": tf(c.serial), "MAXLEG": strconv.Itoa(c.maxLeg), "FIX": tf(c.fix), "EMIT": tf(c.emit), "INVS": c.invs,
+			"HANDLER": handlerOf(c), "ONLYLIST": setOf(c.onlyList), "CREFAULTS": tf(c.creFaults), "READFAULTS": tf(c.readFaults), "TTLROLLBACK": tf(ttlRollback()), "LEGSTATUS": legStatusOf(c), "SEQ": tf(c.serial), "MAXLEG": strconv.Itoa(c.maxLeg), "FIX": tf(c.fix), "EMIT": tf(c.emit), "INVS": c.invs,
 			"SPELL": spellOf(c), "FOLD": tf(!c.nofold), "ONLYDEL": setOf(c.onlyDel), "ONLYCRE": setOf(c.onlyCre), "DEVIATE": setOf(c.deviate), "DELFAULTS": tf(c.delFaults)}}
 }
 
@@ -1286,6 +1446,29 @@ func shadow(emit bool) mcfg {
 	return mcfg{p1: `{"p1"}`, p2: `{}`, names: `{"n1"}`, kinds: `{"Create", "Update"}`, maxOps: 2, maxLook: 1, maxLeg: 1, serial: true, fix: true, emit: emit, handler: `{}`}
 }
 
+// updating: the owner updates a mapping (inactive / expired) while another call of the same client deletes it and
+// another client claims the name
+func updating(emit bool, looks int) mcfg {
+	return mcfg{p1: `{"p1", "p3"}`, p2: `{"p2"}`, names: `{"n1"}`, kinds: cdu, maxOps: 1, maxLook: looks, pre: true, fix: true, emit: emit,
+		onlyDel: `{"p3"}`, onlyCre: `{"p2"}`}
+}
+
+// readFault: sequential histories of both clients (create, delete, list, update; lookups) in which any one storage
+// operation of a READ path - a listing, a host lookup, a stand-alone update - fails once
+func readFault(emit bool) mcfg {
+	return mcfg{p1: `{"p1"}`, p2: `{"p2"}`, names: `{"n1"}`, kinds: `{"Create", "Delete", "List", "Update"}`, maxOps: 2, maxLook: 1, faults: 1, pre: true, serial: true,
+		fix: true, emit: emit, readFaults: true}
+}
+
+// shadowFault: the shadow histories with legacy mappings of every status (inactive / expired / revoked ones must not
+// route) and one failing storage operation of the lookup / the update
+func shadowFault(emit bool) mcfg {
+	c := shadow(emit)
+	c.legStatus = `{"active", "inactive", "expired", "revoked"}`
+	c.readFaults, c.faults = true, 1
+	return c
+}
+
 // deviating: schedules of code that has one of the named deviations the present code does not have
 func deviating(c mcfg, dev string) mcfg { c.deviate = dev; return c }
 
@@ -1296,6 +1479,58 @@ func claim2(emit bool, looks int) mcfg {
 
 // unrepaired: neither the DeleteMapping repair nor the case-insensitive index key
 func unrepaired(c mcfg, spell string) mcfg { c.fix = false; c.nofold = true; c.spell = spell; return c }
+
+type genJob struct {
+	name string
+	c    mcfg
+}
+
+var procNames = regexp.MustCompile(`p[0-9]`)
+
+// genTable: the generation jobs of a tier, in order (see spec/Domain.cfg).
+// "legacy:" jobs follow the model of the code before the DeleteMapping repair (Fix = FALSE) or of code with a named
+// deviation: on the present code they leave the schedule at the first differing step (fw.Diverged, still judged), on
+// code that has the deviation they are the ones that realise
+func genTable(env *fw.Env) []genJob {
+	looks2f := 0
+	if env.Tier == "thorough" {
+		looks2f = 1
+	}
+	t := []genJob{
+		{"gen:conc3", with(conc3(true, true, 1, 1, 0), allInvs)},
+		{"gen:seq", with(seqCfg(true, true, cdu, 2, 1+looks2f, 0, 1), excusedInvs)}, // two lookups (stale registry cache) in thorough; quick has gen:shadow + extra
+		{"gen:del3", with(del3(true, looks2f), allInvs)},
+		{"gen:opf", with(opFault(true), allInvs)},
+		{"gen:list", with(listing(true), allInvs)},
+		{"gen:upd", with(updating(true, looks2f), allInvs)}, // quick: the lookups are the driver's probes after every step
+		{"gen:rdf", with(readFault(true), allInvs)},
+		{"gen:shadow", with(shadow(true), excusedInvs)},
+		{"gen:shadowf", with(shadowFault(true), excusedInvs)},
+		{"legacy:dev:conflict-unlock", deviating(del3(true, 0), `{"conflictUnlock"}`)},
+	}
+	if env.Tier == "thorough" {
+		listf := listing(true)
+		listf.readFaults, listf.faults = true, 1
+		t = append(t,
+			genJob{"gen:conc2f", with(conc2(true, true, `{"n1"}`, 1, 1), allInvs)},
+			genJob{"legacy:conc3", unrepaired(conc3(false, true, 1, 1, 0), "")},
+			genJob{"gen:spell", with(spellCfg(true, true, 2, 2), allInvs)},
+			genJob{"legacy:dev:lazy-clean", deviating(claim2(true, 1), `{"lazyClean"}`)},
+			genJob{"legacy:seq", unrepaired(seqCfg(false, true, cd, 2, 1, 1, 0), `{"plain", "upper"}`)},
+			genJob{"gen:conc3f", with(conc3(true, true, 1, 1, 1), allInvs)},
+			genJob{"gen:conc2:2names", with(conc2(true, true, `{"n1", "n2"}`, 1, 0), allInvs)},
+			genJob{"gen:seqleg", with(seqCfg(true, true, cd, 1, 3, 0, 2), excusedInvs)},
+			genJob{"gen:seqf", with(seqCfg(true, true, cdu, 2, 1, 1, 0), allInvs)},
+			genJob{"gen:listf", with(listf, allInvs)},
+			genJob{"legacy:conc2f", unrepaired(conc2(false, true, `{"n1"}`, 1, 1), "")},
+			// schedules of code with the round-3 deviations (spec/Domain_show_*.cfg are the same models with the invariants on)
+			genJob{"legacy:dev:nx-release", deviating(opFault(true), `{"nxErrRelease", "nxTakenRelease"}`)},
+			genJob{"legacy:dev:fall-through", deviating(shadowFault(true), `{"expiredFallsThrough", "inactiveFallsThrough", "errFallsThrough", "legacyStatusIgnored"}`)},
+			genJob{"legacy:dev:list-heals", deviating(listf, `{"listHeals", "listErrPrunes"}`)},
+			genJob{"legacy:dev:update-heals", deviating(updating(true, 1), `{"updateHeals"}`)})
+	}
+	return t
+}
 
 func main() {
 	fw.Main(&fw.Property{
@@ -1321,31 +1556,9 @@ func main() {
 			// "legacy:" jobs follow the model of the code before the DeleteMapping repair (Fix = FALSE): on the
 			// repaired code they stop being realisable at the first delete, on the unrepaired code they are the
 			// ones that realise
-			looks2f := 0
-			if env.Tier == "thorough" {
-				looks2f = 1
-			}
-			jobs := []fw.TLCJob{
-				job("gen:conc3", with(conc3(true, true, 1, 1, 0), allInvs)),
-				job("gen:seq", with(seqCfg(true, true, cdu, 2, 1+looks2f, 0, 1), excusedInvs)), // two lookups (stale registry cache) in thorough; quick has gen:shadow + extra
-				job("gen:del3", with(del3(true, looks2f), allInvs)),
-				job("gen:opf", with(opFault(true), allInvs)),
-				job("gen:list", with(listing(true), allInvs)),
-				job("gen:shadow", with(shadow(true), excusedInvs)),
-				job("legacy:dev:conflict-unlock", deviating(del3(true, 0), `{"conflictUnlock"}`)),
-			}
-			if env.Tier == "thorough" {
-				jobs = append(jobs,
-					job("gen:conc2f", with(conc2(true, true, `{"n1"}`, 1, 1), allInvs)),
-					job("legacy:conc3", unrepaired(conc3(false, true, 1, 1, 0), "")),
-					job("gen:spell", with(spellCfg(true, true, 2, 2), allInvs)),
-					job("legacy:dev:lazy-clean", deviating(claim2(true, 1), `{"lazyClean"}`)),
-					job("legacy:seq", unrepaired(seqCfg(false, true, cd, 2, 1, 1, 0), `{"plain", "upper"}`)),
-					job("gen:conc3f", with(conc3(true, true, 1, 1, 1), allInvs)),
-					job("gen:conc2:2names", with(conc2(true, true, `{"n1", "n2"}`, 1, 0), allInvs)),
-					job("gen:seqleg", with(seqCfg(true, true, cd, 1, 3, 0, 2), excusedInvs)),
-					job("gen:seqf", with(seqCfg(true, true, cdu, 2, 1, 1, 0), allInvs)),
-					job("legacy:conc2f", unrepaired(conc2(false, true, `{"n1"}`, 1, 1), "")))
+			var jobs []fw.TLCJob
+			for _, g := range genTable(env) {
+				jobs = append(jobs, job(g.name, g.c))
 			}
 			return jobs
 		},
@@ -1354,16 +1567,17 @@ func main() {
 			if err := json.Unmarshal(raw, &steps); err != nil {
 				panic(err)
 			}
-			pre := !strings.HasSuffix(src, ":seq") && !strings.HasPrefix(src, "gen:seq") && !strings.Contains(src, ":spell") && !strings.Contains(src, "lazy-clean") && src != "gen:shadow"
+			var g genJob
+			for _, x := range genTable(env) {
+				if x.name == src {
+					g = x
+				}
+			}
+			// the pre-existing mapping, and which processes call through the command handlers, are the model's
+			pre := g.c.pre
 			legacy := strings.HasPrefix(src, "legacy:")
 			var out []json.RawMessage
-			cmd := []string{"p2"}
-			switch src {
-			case "gen:opf":
-				cmd = []string{"p1"}
-			case "gen:shadow":
-				cmd = nil
-			}
+			cmd := procNames.FindAllString(handlerOf(g.c), -1)
 			for ti, tier := range []string{"store", "hybrid"} {
 				out = append(out, fw.MustJSON(behaviour{Kind: "sched", Tier: tier, Cmd: cmd, Late: (len(steps)+ti)%2 == 1, Pre: pre, Legacy: legacy, Steps: steps}))
 			}
@@ -1380,6 +1594,8 @@ func main() {
 				out = append(out, fw.MustJSON(behaviour{Kind: "regrace", Tier: "store", API: "repo", Procs: 3, Ops: nrace, Seed: i}))
 			}
 			for _, tier := range []string{"store", "hybrid"} {
+				out = append(out, fw.MustJSON(behaviour{Kind: "ttl", Tier: tier, API: "cmd"}))
+				out = append(out, fw.MustJSON(behaviour{Kind: "ttl", Tier: tier, API: "cmd", Seed: 1})) // the expiry update of the create fails
 				for _, api := range []string{"repo", "cmd"} {
 					out = append(out, fw.MustJSON(behaviour{Kind: "spell", Tier: tier, API: api}))
 					for i := 0; i < nfree; i++ {
@@ -1399,10 +1615,15 @@ func main() {
 				}
 				return 600
 			}
-			if strings.HasPrefix(src, "legacy:") {
+			// thorough: 16 generation jobs + 9 legacy / deviation jobs; the caps keep the whole tier (TLC, ~28k behaviours
+			// on two storage tiers held in memory, one judge run over ~1.3M events) inside the 15 min budget and a few GB of memory
+			switch {
+			case strings.HasPrefix(src, "legacy:"):
+				return 400
+			case src == "gen:opf":
 				return 3000
 			}
-			return 8000
+			return 1500
 		},
 		Drive:    drive,
 		Parallel: 16,
@@ -1424,12 +1645,17 @@ func main() {
 			"after every step; a dedicated three-deleters-one-claimant job (gen:del3); schedules of code with named deviations (legacy:dev:*: a Conflict " +
 			"that removes the holder's delete marker, a lookup that deletes index entries) and of the code before the repairs (legacy:*); where the real code " +
 			"leaves a schedule it is still followed best-effort, finished and judged (fw.Diverged); plus a sequential Host-spelling sweep and seeded " +
-			"free-running stress; non-trivial = realised with >= 2 non-lookup calls",
+			"free-running stress (create / delete / list / update / lookup); round 3: any one failing storage operation of a create or delete (gen:opf) and of " +
+			"a listing, lookup or update (gen:rdf), listing and update racing the owner's delete (gen:list, gen:upd), the three lookup sources against each " +
+			"other with legacy mappings of every status (gen:shadow, gen:shadowf), and expiry by the clock (a create with mapping_ttl = 1 s, requests before " +
+			"and after the acknowledged expires_at, with and without a failing expiry update); non-trivial = realised with >= 2 non-lookup calls",
 		Assumptions: []string{
 			"the session manager, cloud control (GetPortMappingByDomain only) and the storage tiers below hybrid.Storage are doubles; tier doubles are correct maps",
 			"interleavings are forced at the granularity of the repository's storage operations; interleavings inside one hybrid.Storage operation are C14's subject",
 			"cache-TTL expiry and restarts of the shared cache are outside the behaviours; ids named in Delete calls were returned by a create (Guess = TRUE is model-checked only)",
 			"legacy (management API) mappings are created/deleted by the driver with the registry/cloud-control effects of handlers_mapping.go",
+			"storage faults are injected at the repository<->storage seam as an error return of an operation that was NOT applied; at most one per behaviour",
+			"the model variant TTLRollback (adapter.CreateHTTPDomainMapping undoes a create whose expiry update failed, fix C19-3) is selected by probing the code under test; both variants are judged by the same trace clauses",
 		},
 		TrustedBase: []string{"TLC", "spec/DomainTrace.tla as the reading of C19", "harness/sched gate scheduler", "harness/doubles store double", "gstore seam and proxy doubles in drivers/c19"},
 	})
@@ -1498,7 +1724,91 @@ func selfTest(env *fw.Env, acc []*fw.Trace) []*fw.Trace {
 			}
 		}
 	}
+	// (e) a request made after the acknowledged expiry time is routed to the expired mapping
+	// (f) a request for a name with a repository owner is served by the legacy mapping of that name
+	// (g) a legacy mapping that is not active routes
+	for _, t := range acc {
+		for _, k := range []string{"e", "f", "g"} {
+			if kinds[k] < 6 {
+				if c := flipRejected(t, cp, k); c != nil {
+					out = append(out, c)
+					kinds[k]++
+				}
+			}
+		}
+	}
 	return out
+}
+
+// flipRejected: turn one rejected lookup of the trace into a routed one that the clause of `kind` forbids.
+func flipRejected(t *fw.Trace, cp func(*fw.Trace) *fw.Trace, kind string) *fw.Trace {
+	num := func(v any) int64 {
+		switch x := v.(type) {
+		case int64:
+			return x
+		case int:
+			return int64(x)
+		case float64:
+			return int64(x)
+		}
+		return 0
+	}
+	type owner struct {
+		c, tp any
+		exp   int64
+		ret   int // line of the create's Ret
+	}
+	creates := map[any]fw.Event{} // call -> Call event
+	owners := map[any]owner{}    // name -> acknowledged repository owner
+	legs := map[any]fw.Event{}    // name -> LegCreate
+	calls := map[any]fw.Event{}   // lookup call -> Call event
+	callAt := map[any]int{}
+	for i, e := range t.Events {
+		switch {
+		case e["ev"] == "Call" && (e["op"] == "Delete" || e["op"] == "Update"):
+			if kind != "g" {
+				return nil // keep it simple: histories without deletes / updates only (kind e, f)
+			}
+		case e["ev"] == "LegDelete":
+			return nil
+		case e["ev"] == "Call" && e["op"] == "Create":
+			creates[e["p"]] = e
+		case e["ev"] == "Ret" && e["op"] == "Create" && e["ok"] == true:
+			ce := creates[e["p"]]
+			owners[ce["name"]] = owner{ce["c"], ce["tp"], num(e["exp"]), i}
+		case e["ev"] == "LegCreate":
+			legs[e["name"]] = e
+		case e["ev"] == "Call" && e["op"] == "Lookup":
+			calls[e["p"]] = e
+			callAt[e["p"]] = i
+		case e["ev"] == "Ret" && e["op"] == "Lookup" && e["routed"] == false:
+			q := calls[e["p"]]
+			name := q["name"]
+			o, owned := owners[name]
+			owned = owned && o.ret < callAt[e["p"]]
+			lg, hasLeg := legs[name]
+			route := func(c, tp any) *fw.Trace {
+				n := cp(t)
+				n.Events[i]["routed"], n.Events[i]["c"], n.Events[i]["tp"] = true, c, tp
+				return n
+			}
+			switch kind {
+			case "e":
+				if owned && o.exp != 0 && num(q["now"]) > o.exp {
+					return route(o.c, o.tp)
+				}
+			case "f":
+				if owned && hasLeg {
+					return route(lg["c"], lg["tp"])
+				}
+			case "g":
+				if !owned && hasLeg && lg["st"] != "active" && lg["st"] != nil {
+					return route(lg["c"], lg["tp"])
+				}
+			}
+		}
+	}
+	return nil
 }
 
 // ownedBefore: the name claimed by the create that returns at line i is owned by a create that had
